@@ -106,17 +106,25 @@ def cached_run(units, tier, jobs):
         os.makedirs(d, exist_ok=True)
         # drop caches of other tree states (disk space)
         base = os.path.join(HERE, '.cache')
-        for other in os.listdir(base):
-            if other != os.path.basename(d):
-                import shutil
+        # (concurrent checks of other trees - seeded-change evaluations - keep their own directory: only stale ones go)
+        import shutil
+        others = sorted((o for o in os.listdir(base) if o != os.path.basename(d)),
+                        key=lambda o: os.path.getmtime(os.path.join(base, o)), reverse=True)
+        now = time.time()
+        for k, other in enumerate(others):
+            if k >= 6 or now - os.path.getmtime(os.path.join(base, other)) > 3 * 3600:
                 shutil.rmtree(os.path.join(base, other), ignore_errors=True)
         for r in U.run_units(todo, jobs):
             results.append(r)
             if use and r.get('error') is None:
                 p = os.path.join(d, hashlib.sha1(r['uid'].encode()).hexdigest() + '.json')
-                with open(p + '.tmp', 'w') as f:
-                    json.dump(r, f)
-                os.replace(p + '.tmp', p)
+                try:
+                    os.makedirs(d, exist_ok=True)
+                    with open(p + '.tmp', 'w') as f:
+                        json.dump(r, f)
+                    os.replace(p + '.tmp', p)
+                except OSError:
+                    pass
     return results, len(units) - len(todo)
 
 
